@@ -1,6 +1,7 @@
 package main
 
 import (
+	"net"
 	"errors"
 	"fmt"
 	"io"
@@ -46,7 +47,13 @@ func (w *faultW) outcome(p []byte) (int, error) {
 	switch o {
 	case oErr:
 		// an error comes with any byte count: none, all, or some of the bytes
-		return []int{0, len(p), len(p) / 2}[(w.salt+w.id+i)%3], fmt.Errorf("dest%d-call%d", w.id, i)
+		var err error = fmt.Errorf("dest%d-call%d", w.id, i)
+		if (w.salt/3+w.id+i)%2 == 1 {
+			// the kind of error a socket returns after a deadline: net.Error, Timeout() and Temporary() true. What kind of
+			// error a destination fails with changes nothing: reported once, nothing written twice
+			err = tmoErr{err.Error()}
+		}
+		return []int{0, len(p), len(p) / 2}[(w.salt+w.id+i)%3], err
 	case oShort:
 		k := (w.salt + w.id + i) & 3
 		w.shorts[k]++
@@ -54,6 +61,14 @@ func (w *faultW) outcome(p []byte) (int, error) {
 	}
 	return len(p), nil
 }
+
+type tmoErr struct{ s string }
+
+func (e tmoErr) Error() string   { return e.s }
+func (e tmoErr) Timeout() bool   { return true }
+func (e tmoErr) Temporary() bool { return true }
+
+var _ net.Error = tmoErr{}
 
 type plainFaultW struct{ *faultW }
 
